@@ -73,7 +73,7 @@ def make_grid(K, N, table, rule="extend", fv=4.0, order=0):
 
 
 def fields(K, N, seed):
-    S = np.arange(K * N * N, dtype=float).reshape(K, N, N) + 1 + seed % 7
+    S = (np.arange(K * N * N, dtype=float).reshape(K, N, N) + 1 + seed % 7) * (1 + seed % 3)
     if seed % 2:
         S = S[:, ::-1, :].copy()
     U = S * 10 + 0.25
@@ -117,7 +117,8 @@ def check_pad(rec, K, N, table, axis, comp, wA, wB, ri, li, seed, g=None, case=N
     if case is None:
         case = dict(K=K, N=N, table=tab_json(table), axis=axis, comp=comp, wA=list(wA), wB=list(wB), ri=ri, li=li, order=order)
     widths = {axis: tuple(wA), T.OTHER[axis]: tuple(wB)}
-    arrays = fields(K, N, seed)
+    # the values depend on the case, so that consecutive pads on one Grid never carry the same data
+    arrays = fields(K, N, seed + ri * 3 + li + wA[0] * 5 + wA[1] * 7 + wB[0] * 11 + (0 if comp == "s" else 1 if comp == "X" else 2))
     isvec = comp != "s"
     # non-triviality: some halo cell comes through a link
     kinds = set()
